@@ -17,7 +17,7 @@ pub open spec fn last_layer_query_ok(q: FriLayerQuery, c: Seq<nat>) -> bool {
     poly_eval(c, fdiv(1, q.x_inv_value@)) == q.y_value@
 }
 
-//@repo crates/fri/src/last_layer.rs fn verify_last_layer props=C06,C07 rules=R3_iter_mut_readonly
+//@repo crates/fri/src/last_layer.rs fn verify_last_layer props=C01,C02,C06,C07 rules=R3_iter_mut_readonly
 pub fn verify_last_layer(
     mut quries: Vec<FriLayerQuery>,
     coefficients: Vec<Felt>,
@@ -25,7 +25,7 @@ pub fn verify_last_layer(
     requires
         forall|i: int| 0 <= i < quries@.len() ==> (#[trigger] quries@[i]).x_inv_value@ != 0, // [C18:last-layer-inverse-points-nonzero-else-division-panics]
     ensures
-        r.is_ok() <==> forall|i: int| 0 <= i < quries@.len() ==> last_layer_query_ok(#[trigger] quries@[i], fv(coefficients@)), // [C06,C07:last-layer-ok-iff-polynomial-matches-every-query]
+        r.is_ok() <==> forall|i: int| 0 <= i < quries@.len() ==> last_layer_query_ok(#[trigger] quries@[i], fv(coefficients@)), // [C01,C02,C06,C07:last-layer-ok-iff-polynomial-matches-every-query]
 {
     for query in /*+*/it: /*-*/quries.iter()
         invariant
@@ -46,9 +46,9 @@ pub fn verify_last_layer(
 }
 //@end
 
-//@repo crates/fri/src/last_layer.rs fn horner_eval props=C06,C07 rules=R2_rev_loop
+//@repo crates/fri/src/last_layer.rs fn horner_eval props=C01,C02,C06,C07 rules=R2_rev_loop
 fn horner_eval(coefs: &[Felt], point: Felt) -> (r: Felt)
-    ensures r@ == poly_eval(fv(coefs@), point@), // [C06,C07:horner-evaluates-the-coefficient-polynomial]
+    ensures r@ == poly_eval(fv(coefs@), point@), // [C01,C02,C06,C07:horner-evaluates-the-coefficient-polynomial]
 {
     let mut result = Felt::from(0);
     { let mut i__ = coefs.len(); while i__ > 0
